@@ -228,7 +228,8 @@ def run(ctx):
     json.dump([len(d["toks"]) for d in docs], open(docs_json, "w"))
     env = {"VERIF_C27_DOCS": docs_json, "VERIF_C27_SEED": ctx.seed}
 
-    r = ctx.tlc("PolicyFront", "MC_PolicyFront.cfg", timeout=1500, env=env)
+    r = ctx.tlc("PolicyFront", "MC_PolicyFront_thorough.cfg" if ctx.thorough else "MC_PolicyFront.cfg",
+                timeout=1500, env=env)
     ctx.require_actions(r, ["Grow", "Mutate"])
     tb = None
     for p in r.prints:
@@ -261,7 +262,7 @@ def run(ctx):
     # texts that may abort the process go last, so that restarts are few
     cases.sort(key=lambda c: (c["fam"] == "nest", c["cell"].get("depth", 0) if c["fam"] == "nest" else 0))
     batch = cases
-    res = run_front(ctx, vh, cases)
+    res = run_front(ctx, vh, cases, opts={"full": 1} if ctx.thorough else None)
     dres = []
     ctx.absorb(res)
 
